@@ -237,6 +237,46 @@ def run_project(sx, edges, points):
     return "written"
 
 
+LABELS = [("terrain",), ("wall",), ("terrain", "wall"), ("wall", "roof")]
+
+
+def run_project_shared(sx, full=False, order_i=None):
+    """two operations project corners that are one vertex: the vertex is written with everything that was declared"""
+    boxes, bounds = _boxes(sx)
+    order = [[0, 1, 2], [1, 0, 2], [2, 1, 0]][sx.choice("order", 3) if order_i is None else order_i]
+    # box 0's right side is box 1's left side: corner 1/2/5/6 of box 0 is corner 0/3/4/7 of box 1
+    pairs = [(1, 0), (2, 3), (5, 4), (6, 7)]
+    c0, c1 = pairs[sx.choice("corner", 4)]
+    other = pairs[sx.choice("other_corner", 4)][1] if full else [c1, pairs[(c0 + 1) % 4][1]][sx.choice("other_corner", 2)]
+    nl = len(LABELS) if full else 3
+    la = LABELS[sx.choice("labels_0", nl)]
+    lb = LABELS[(1 + sx.choice("labels_1", nl)) % len(LABELS)]
+    boxes[0].project_corner(c0, list(la) if len(la) > 1 else la[0])
+    boxes[1].project_corner(other, list(lb) if len(lb) > 1 else lb[0])
+    boxes[1].project_corner(c1, "roof")
+    declared = [(0, c0, la), (1, other, lb), (1, c1, ("roof",))]
+    mesh = cb.Mesh()
+    for i in order:
+        mesh.add(boxes[i])
+    mesh.add_geometry({name: ["type triSurfaceMesh", f"file \"{name}.stl\""] for name in ("terrain", "wall", "roof")})
+    parsed, text, vtk = _write(sx, mesh)
+    sx.reach("written")
+    tag = f"project_corner({c0}, {la}) on box 0, ({other}, {lb}) and ({c1}, roof) on box 1, insertion order {order}"
+    counts = {0: [2, 3, 4], 1: [3, 3, 4], 2: [4, 3, 4]}
+    _common(sx, parsed, vtk, order, bounds, {0: "", 1: "", 2: ""}, counts, tag)
+    # the hex entries (checked against the geometry by _common) say which written vertex each corner is
+    expected = {}
+    for box, corner, labels in declared:
+        vi = parsed["blocks"][order.index(box)]["indexes"][corner]
+        expected.setdefault(vi, set()).update(labels)
+    bad = [(vi, v["project"], sorted(expected.get(vi, set()))) for vi, v in enumerate(parsed["vertices"])
+           if set(v["project"]) != expected.get(vi, set())]
+    sx.prove(not bad, f"{tag}: every vertex is written with exactly the geometries its corners were projected to "
+             "(by any operation, in any insertion order)", "C06:vertices:project-shared",
+             info={"mismatches": [list(map(str, x)) for x in bad[:4]]})
+    return "written"
+
+
 MODS = ["none", "kind-only", "kind+settings", "settings-then-reset", "settings-then-none", "settings-then-new"]
 
 
@@ -389,6 +429,8 @@ def run_sphere(sx, cls_name):
 
 def jobs(tier, seed):
     js = [{"name": "patches+zones+default+merge+settings", "fn": "run_patches"},
+          *[{"name": f"project_corner|shared corners|insertion order {i}", "fn": "run_project_shared",
+             "params": {"full": tier != "quick", "order_i": i}} for i in range(3)],
           {"name": "delete+modify_patch", "fn": "run_delete_modify"}]
     for edges in (False, True):
         for points in (False, True):
